@@ -17,7 +17,7 @@ RULE = ("molecule sets over ids {1,2,3,7,10} with 0-3 labels each (coincident la
         "and no filter) x both reader entry points; two-call sequences on ONE reader over two named files on disk (same or different file, "
         "every pair of id filters, both entry-point orders); trim: every label list (<=5 labels) over a lattice with one-decimal offsets; "
         "non-trivial = rows not in canonical order, or a filter is given, or a molecule has no label")
-ASSUMPTIONS = ["three file layouts: plain, annotation column with blanks + two channels, instrument-style header with a TAB after #h and no final newline", "independent expectation computed from the molecule description, not by parsing with COMA code"]
+ASSUMPTIONS = ["four file layouts: plain, annotation column with blanks + two channels, instrument-style header with a TAB after #h and no final newline, no #f line", "independent expectation computed from the molecule description, not by parsing with COMA code"]
 
 WORLDS = [
     [(3, 100.7, [10.5, 20.1]), (1, 50.0, [])],
@@ -31,6 +31,8 @@ WORLDS = [
     # labels only at coordinate 0 (an already-trimmed one-label molecule; coincident labels at 0); a label exactly at ContigLength
     [(4, 30.0, [0.0]), (6, 40.0, [0.0, 0.0]), (9, 25.0, [])],
     [(5, 70.0, [0.0, 70.0]), (8, 60.4, [60.0])],
+    # two colours interleaved along the molecule
+    [(2, 90.5, [(10.0, 2), (20.5, 1), (30.0, 2), (40.0, 1)]), (3, 50.0, [(5.5, 2), (7.0, 1)])],
     # molecule ids that do not survive a round trip through a double
     [(9007199254740993, 50.0, [10.0, 20.5]), (9007199254740992, 40.0, [5.0]), (4611686018427387905, 30.0, [1.5])],
 ]
@@ -73,6 +75,11 @@ def check_read(mols, order, ids, entry, acc, layout=1):
     if layout == 1:
         rows = cmaptext.rows(plain, extra_column=True)
         txt = (cmaptext.HEADER % ('\tExtra', '\tfloat')) + ''.join(rows[i] for i in order)
+    elif layout == 4:
+        # layout 4: the '#f' line (column types) is missing; '#h' is directly followed by the first data row
+        rows = cmaptext.rows(plain, extra_column=True)
+        head = (cmaptext.HEADER % ('\tExtra', '\tfloat'))
+        txt = ''.join(l + '\n' for l in head.splitlines() if not l.startswith('#f')) + ''.join(rows[i] for i in order)
     elif layout == 3:
         # layout 3: the header of an instrument-written file (five comment lines, '#h' followed by a TAB, one more column) and no
         # newline after the last row
@@ -255,7 +262,7 @@ class Reader(core.Layer):
         for oi, order in enumerate(perms):
             for ids in id_filters(mols):
                 for entry in ('queries', 'references'):
-                    for layout in (1, 2 + oi % 2):       # layout 1 for every row order, layouts 2 and 3 alternate
+                    for layout in (1, 2 + oi % 3):       # layout 1 for every row order, layouts 2, 3 and 4 take turns
                         acc.seq += 1
                         check_read(mols, order, ids, entry, acc, layout)
 
